@@ -171,10 +171,13 @@ func (ch *channel) SendAndClose(ctx async.Context, data []byte) status.Status {
 		return statusChannelClosed
 	}
 
-	// If opened, close, send data/close
-	if s.opened.Load() {
-		s.close()
+	// Close the channel after sending the message: closing cancels the channel context,
+	// and the caller usually passes that context, so a send which has to wait for space
+	// in the write queue would be aborted and the close message with its payload lost.
+	defer s.close()
 
+	// If opened, send data/close
+	if s.opened.Load() {
 		// Decrement window
 		size := int32(len(data))
 		s.sendWindow.Add(-size)
@@ -183,9 +186,8 @@ func (ch *channel) SendAndClose(ctx async.Context, data []byte) status.Status {
 		return s.sender.sendClose(ctx, data)
 	}
 
-	// Open/close channel
+	// Open channel
 	s.open()
-	s.close()
 
 	// Decrement window
 	size := int32(len(data))
